@@ -245,7 +245,14 @@ def sc_exhaust(sess, rng, tb, findings):
 def sc_rootmount(sess, rng, tb, findings, nsteps):
     c = new_case(sess, rng, tb); g = HistoryGen(c, rng)
     if rng.random() < 0.5: g.mount(path=mk_path(rng, [('N', 1)]), ans=okmount(rng))
-    g.mount(path=mk_path(rng, [], noise=False), ans=okmount(rng, rng.choice([1, 7])))
+    st, o = g.mount(path=mk_path(rng, [], noise=False), ans=okmount(rng, rng.choice([1, 7])))
+    if o['status'] == 'ok' and not os.environ.get('VFS_NO_DET'):
+        # deterministic block: two-inode operations between nodeid 1 (which stands for the root mount, raw index 0), an
+        # inode of the same backend named by its full number, and a pseudo directory
+        sub = (o['vals'][0] << 56) | 5
+        for op in ('rename', 'link'):
+            for a_, b_ in ((ROOT_INO, sub), (sub, ROOT_INO), (ROOT_INO, 2), (2, ROOT_INO), (ROOT_INO, ROOT_INO), (sub, 2)):
+                g.request(op, a_, ino2=b_, name=('norm', 1), name2=('norm', 2), ans=mk_ans(ent={'ino': 9, 'stino': 9, 'uid': 0, 'gid': 0, 'tag': 1}))
     for _ in range(nsteps):
         if c.dead: break
         if rng.random() < 0.5: g.request(nodeid=ROOT_INO)
